@@ -83,8 +83,9 @@ theorem interpOne_between_rounded (x y : List (Fl M)) (mode : ExtrapMode (Fl M))
   have := abs_le.mp he
   exact ⟨v, hv, by linarith [this.1], by linarith [this.2]⟩
 
-/-- at `u = 2⁻⁵³` the relative error of `norm` for vectors of length `≤ 10⁴` is below `5.6·10⁻¹³` -/
-theorem normL_f64_note (M : FlModel) [SqrtStd M] (hu : M.u = 1 / 2 ^ 53) (x : List (Fl M))
+/-- at `u = 2⁻⁵³` the relative error of `norm` for vectors of length `≤ 10⁴` is below `5.6·10⁻¹³`.
+PROVISO: a theorem of the idealised standard model (`fl(x) = x(1+δ)` for EVERY operation, library functions of relative error `≤ uf` for EVERY argument), instantiated at `u = 2⁻⁵³`; it is a statement about IEEE binary64 only where no operation overflows or underflows (for `exp`: arguments in `[−708.39, 709.78]`). -/
+theorem normL_stdmodel_note (M : FlModel) [SqrtStd M] (hu : M.u = 1 / 2 ^ 53) (x : List (Fl M))
     (hn : x.length ≤ 10000) :
     |(VecOps.normL x).val - norm2 (vals x)| ≤ 5.6e-13 * norm2 (vals x) := by
   have hk : x.length / 2 + 2 ≤ 5002 := by omega
@@ -96,6 +97,10 @@ theorem normL_f64_note (M : FlModel) [SqrtStd M] (hu : M.u = 1 / 2 ^ 53) (x : Li
   unfold FlModel.γ
   rw [hu]
   norm_num
+
+/-- deprecated alias of `normL_stdmodel_note` (the `f64_` prefix wrongly suggested a statement about IEEE binary64; kept only
+until the `REQUIRED_THEOREMS` wiring is updated) -/
+alias normL_f64_note := normL_stdmodel_note
 
 /-! ### necessity of the mean-dependent term in the Welford bound -/
 
